@@ -1,6 +1,6 @@
 (* Extraction of the C05 model for the correspondence check. ExtrOcamlBasic only. *)
 From V.lib Require Import Base.
-From V.c05 Require Import C05Model C05FragModel C05CodecModel C05SegModel.
+From V.c05 Require Import C05Model C05FragModel C05CodecModel C05SegModel C05SegCodecModel.
 Require Import ExtrOcamlBasic.
 Separate Extraction
   nat sample fullsample trun tfhd trex
@@ -9,4 +9,5 @@ Separate Extraction
   create_fragment create_multi with_extras step run_ops encode_frag encoded_len moof_size md_header_size
   set_offsets decoded_view get_full_samples
   rd32 enc_trun enc_tfhd dec_trun dec_tfhd enc_moof
-  xkind sref xbox tbox eitem dfr dseg fstate item_framed seg_stream seg_decode file_frags seg_read xsum seg_get_full wire_trafs.
+  xkind sref xbox tbox eitem dfr dseg fstate item_framed seg_stream seg_decode file_frags seg_read xsum seg_get_full wire_trafs
+  next_box dec_moof dec_top T_MOOF enc_mdat enc_fragment.
